@@ -194,6 +194,18 @@ def pyIsInt : PV → PV
   | .bool _ => .bool true
   | _ => .bool false
 
+/-- `isinstance(x, str)` -/
+def pyIsStr : PV → PV
+  | .exc e => .exc e
+  | .str _ => .bool true
+  | _ => .bool false
+
+/-- `try: x = e  except AttributeError: x = h` — a guarded read -/
+def pyCatchAttr (e h : PV) : PV :=
+  match e with
+  | .exc "AttributeError" => h
+  | e => e
+
 /-! ### objects -/
 
 /-- `hasattr(o, name)` -/
